@@ -74,6 +74,18 @@ CHECKS = {
    technique="trace validation with fault enumeration: the k-th list (k = 1..4) fails with {error, nil, non-list object, list of non-objects, context.Canceled while running}; watch faults as in C04; a subtree attached; the controller's final Done()/Error()/Ready() are a trace line",
    text='TLC requires: after a failing list the controller stops by itself with a non-nil Error(), never becomes ready if it was the first list, and its whole subtree shuts down; a controller never stops without a failing list or a deliberate close (so watch faults are never fatal); a deliberate Close() reports no failure.',
    note='Trusted: TLC, the hook placement discipline (verif tag), the fake API server (every server-side step is a trace line and is itself consumed by the spec), the stop-the-world quiescence barrier; real time is used only for scripted latencies and generous deadlines (a miss is reported only through a spec-judged trace line).'),
+ "C09": dict(cat="model_checking", engine="joins", design="5 C09",
+   technique="record validation: at every quiescence of seeded source/destination histories the join's cache, readiness flags and subscriber events are recorded together with the current source and destination objects; TLC (trace/JoinRecords.tla) recomputes the selection with Filters.tla's ownership rule and replays the events",
+   text="All eight generated joins and IngressPods run on real typed controllers over fake servers: sources appear, change selector (map selectors, LabelSelectors with In/NotIn/Exists, nil selector with template labels), disappear, in bursts; pods/services with all label maps over 2 keys x 2 values in 2 namespaces; joins created before the source is ready (gated list). TLC requires at each quiescence: join cache = destination objects selected by >= 1 current source (double join: through the selected services), ready only after both sides, nothing cached before ready, the subscriber's events replay from the previous content to the current one, closing the join result returns, leaves the base controllers delivering and the goroutine census of the bases unchanged over 2-3 create/close cycles.",
+   note="Trusted: TLC, Filters.tla's WSelects, the harness' typed object builders and the stop-the-world quiescence barrier. The opaque join filters are judged through the join's content, not through the hook trace. Deviations of the RCPods join are the known finding D6."),
+ "C15": dict(cat="model_checking", engine="tree", design="5 C15",
+   technique="trace validation of linearizability: reader call/return lines and the cache goroutine's own sync/update/filter/list hook lines are steps of TreeTrace.tla; a returned List()/Get() must equal the spec's cache content at some point between the call line and the return line; kept slices are re-checked; the race detector runs on the same driver as an auxiliary monitor",
+   text="1/2/4/8 reader goroutines call List and Get while a writer alternates the real cache actor between distinguishable complete states through multi-object sync / refilter / update (64 scenarios x 300 writes quick). TLC requires every cache.list line to equal the spec content at its linearization point (no half-applied relist or refilter), every returned value to be one of the contents the cache passed through between call and return (so per-caller reads never go backwards), and a slice kept by a caller to be unchanged later although other readers scribble over theirs. A -race build of the same driver must produce no race report.",
+   note="Trusted: TLC, hook placement inside the cache goroutine (the true linearization point). 'No data races' is below the grain of a TLA+ specification: the Go race detector is attached as an auxiliary monitor outside the model and reported as class data-race."),
+ "C20": dict(cat="other", engine="typed", design="5 C20, 6",
+   technique="record validation: typed vs untyped views of the same seeded scenario and the HTTP requests of each typed client are judged by TLC (trace/TypedRecords.tla); the source-text clause of the property is not decided (not a state-machine statement)",
+   text="PARTIAL CLAIM. Decided: for all 12 typed packages the typed controller, subscription, cache and monitor observed side by side with the untyped core on one server (creates, updates, deletes, an object of another type mixed into lists and watch frames, gated first list, close) must equal the untyped view restricted to the type, with foreign objects skipped and never crashing; typed monitors obey the callback protocol under slow handlers; every typed client's List/Watch request path and query (namespaced and all namespaces) equals the resource table of the specification. The behaviour of the generated joins is decided by C09. Not decided: textual equality of the generated sources with their templates.",
+   note="Trusted: TLC, the reflection adapter that drives the typed APIs, the in-memory HTTP transport. Known finding D8: typed monitors call the handler with a nil object for an object of another type."),
 }
 
 NOT_YET = {
@@ -116,7 +128,11 @@ def main():
             {"name": "filters", "path": "/verif/spec/Filters.tla /verif/spec/trace/FilterRecords.tla /verif/harness/filters.go /verif/tools/fam_filters.py",
              "serves_properties": ["C17", "C18", "C19"], "kind_free_text": "filter terms as data; real constructors/Accept/FiltersEqual recorded over an exhaustive term x object universe; TLC judges with the specification's evaluator"},
             {"name": "tree", "path": "/verif/spec/trace/TreeTrace.tla /verif/spec/CacheKernel.tla /verif/harness/tree.go /verif/harness/ctl.go /verif/harness/tracer.go /verif/harness/fakeserver.go /verif/tools/fam_tree.py",
-             "serves_properties": ["C03", "C04", "C05", "C06", "C07", "C08", "C10", "C11", "C12", "C13", "C14", "C16"], "kind_free_text": "concurrent scenarios on the real code with verif hooks; every recorded line replayed as a step of the TLA+ trace specification by TLC"},
+             "serves_properties": ["C03", "C04", "C05", "C06", "C07", "C08", "C10", "C11", "C12", "C13", "C14", "C15", "C16"], "kind_free_text": "concurrent scenarios on the real code with verif hooks; every recorded line replayed as a step of the TLA+ trace specification by TLC"},
+            {"name": "joins", "path": "/verif/spec/trace/JoinRecords.tla /verif/spec/Filters.tla /verif/harness/join.go /verif/harness/objserver.go /verif/tools/fam_filters.py",
+             "serves_properties": ["C09"], "kind_free_text": "joins on real typed controllers over fake servers; quiescent records judged by TLC with the ownership rule"},
+            {"name": "typed", "path": "/verif/spec/trace/TypedRecords.tla /verif/harness/typed.go /verif/tools/fam_filters.py",
+             "serves_properties": ["C20", "C16"], "kind_free_text": "typed vs untyped side by side + typed client requests, judged by TLC"},
         ],
         "checks": checks,
         "not_applicable": na,
